@@ -226,6 +226,13 @@ def templates():
     a(T("sorted-set", "println(sorted(S));", None))
     a(T("sorted-list-of-set", "println(sorted(list(S)));", "aslist.set+sort"))
     a(T("sorted-desc", "println(sorted(list(S), cmp = fn(a, b) compare(b, a)));", None))
+    # ties under key / cmp: the stable sort keeps the order in which the set (map) was enumerated
+    a(T("sorted-set-key-ties", "println(sorted(S, key = fn(x) length(x) % 2));", None))
+    a(T("sorted-set-key-const", "println(sorted(S, key = fn(x) 0));", None))
+    a(T("sorted-set-cmp-ties", "println(sorted(S, cmp = fn(a, b) compare(length(a) % 3, length(b) % 3)));", None))
+    a(T("sorted-map-key-ties", "println(sorted(M, key = fn(x) 0));", None))
+    a(T("sorted-setlist-key-ties", "println(sorted(list(S), key = fn(x) 0));", None))
+    a(T("min-max-key-ties", "println([min(list(S), key = fn(x) 0), max(list(S), key = fn(x) 0)]);", None))
     a(T("length-set", "println(length(S) + length(M));", None))
     a(T("append-remove", "def t = <<x for x in S>>; append(t, 'zz'); remove(t, 'fig'); println(t); println(list(t));", None))
     a(T("put-remove-map", "def t = <<<>>>; for e in entries M do put(t, e[0], e[1]); end; remove(t, 'fig'); "
